@@ -382,16 +382,19 @@ func (db *DB) AcquireRemoteHaltLock(ctx context.Context, lockID int64) (_ *HaltL
 		}
 	}()
 
+	// Wait for local node to catch up to remote position. The lock is not
+	// stored before that: the transactions still on their way from the primary
+	// would be taken for a sign that the lock is gone and would clear it, and
+	// the node must not write before it is at the primary's position.
+	if err := db.WaitPosExact(cctx, haltLock.Pos); err != nil {
+		return nil, fmt.Errorf("wait: %w", err)
+	}
+
 	// Store the remote lock so we can use it for commits. This may overwrite
 	// but there should only be one halt lock at any time since there can only
 	// be one primary. If a race condition occurs and the halt lock is replaced
 	// with a dead one then the next commit will simply be rejected.
 	db.remoteHaltLock.Store(haltLock)
-
-	// Wait for local node to catch up to remote position.
-	if err := db.WaitPosExact(cctx, haltLock.Pos); err != nil {
-		return nil, fmt.Errorf("wait: %w", err)
-	}
 
 	other := *haltLock
 	return &other, nil
